@@ -343,7 +343,8 @@ HEX_VALUE = re.compile(
 
 # Pattern for DSP0004 realValue (extended by INF, -INF, NAN)
 REAL_VALUE = re.compile(
-    r'^(?:[+\-]?[0-9]*\.[0-9]+(?:E[+\-]?[0-9]+)?|INF|-INF|NAN)$',
+    r'^(?:[+\-]?(?:[0-9]*\.[0-9]+(?:E[+\-]?[0-9]+)?|[0-9]+E[+\-]?[0-9]+)|'
+    r'INF|-INF|NAN)$',
     flags=(re.UNICODE | re.IGNORECASE))
 
 
